@@ -176,6 +176,34 @@ impl Prop for C13 {
                     }
                 }
             }
+            // the same inputs once more through ONE parser instance: positions and spans of
+            // every tree must still refer to ITS input
+            {
+                let texts: Vec<&str> = rendered.iter().map(|r| r.text.as_str()).collect();
+                let trees: Vec<(usize, dynp::Node)> = if algo == "LR" {
+                    dynp::lr_parse_session(&texts, RunOpts::default(), LR_STEPS)
+                        .into_iter()
+                        .enumerate()
+                        .filter_map(|(k, r)| r.ok().and_then(|x| x.ok()).map(|t| (k, t)))
+                        .collect()
+                } else {
+                    dynp::glr_parse_session(&texts, RunOpts::default(), GLR_STEPS, true)
+                        .into_iter()
+                        .enumerate()
+                        .filter_map(|(k, r)| r.ok().and_then(|x| x.ok()).and_then(|(_, t)| t).map(|t| (k, t)))
+                        .collect()
+                };
+                for (k, t) in &trees {
+                    st.sub();
+                    if let Err((clause, msg)) = span_invariants(texts[*k], t) {
+                        return Outcome::fail(
+                            format!("reused-parser|{clause}|{algo}"),
+                            format!("grammar:\n{text}\none parser instance parsed, in order: {:?}\ninput #{k}: {:?}\n{msg}\ntree: {}", &texts[..=*k], texts[*k], canon_real(d, t, true)),
+                        );
+                    }
+                }
+                st.class("reused-parser-session");
+            }
             dynp::uninstall();
         }
         Outcome::Pass
